@@ -31,7 +31,7 @@ class SingleEngine(Engine):
         viol = [v for v in res.violations if v["prop"] == self.pid]
         h = steps_hash(res.steps, res.cfg)
         s = {
-            "seed": seed, "viol": viol, "hash": h,
+            "seed": seed, "viol": viol, "hash": h, "digest": res.digest,
             "nontrivial": bool(self.spec["nontrivial"](res)),
             "counters": res.counters, "probes": res.probes, "events": res.n_events,
             "steps": len(res.steps), "sim": res.sim_seconds,
